@@ -199,6 +199,19 @@ InCView(x) == IF x[1] # "obj" THEN x
 (*   "xfirst" fresh cache, explicit-schema tools registered before the inferred*)
 (*            tools of the same Go types.                                      *)
 Caches == {"none", "warm", "xfirst"}
+(* Output side only - how a tool whose Out is a POINTER type *T came by its    *)
+(* schema (the schema is derived from T, the by-type cache entry is T's, and   *)
+(* a nil *T stands for the zero T):                                            *)
+(*   "none"   reflection, no cache;                                            *)
+(*   "warm"   cache hit: an earlier registration of the same tool (an earlier  *)
+(*            Server with the same ServerOptions.SchemaCache) filled the entry;*)
+(*   "xfirst" cache hit through a sibling: on this server the tool with Out = T*)
+(*            is registered before the tool with Out = *T and fills the entry; *)
+(*   "pfirst" fresh cache, the tool with Out = *T is registered first and      *)
+(*            fills the entry, the tool with Out = T then hits it.             *)
+(* What a call returns must not depend on the arrangement: the property speaks *)
+(* of the tool's declared output type / schema only.                           *)
+OutCaches == Caches \cup {"pfirst"}
 
 -----------------------------------------------------------------------------
 (* Input side: reflected schemas for a fixed family of Go struct types.        *)
@@ -351,15 +364,17 @@ ObjIds == {"objRO", "objRC", "objOO", "objOC"} \cup XIds
 
 (* reflected output types:                                                    *)
 (*   type OutS struct { N int `json:"n"`; Mode string `json:"mode"`; Tags []string `json:"tags"` } *)
-(*   "struct" = OutS, "ptr" = *OutS, "strs" = []string, "rint" = int, "rstr" = string, "rbool" = bool *)
-GoOutKinds == {"struct", "ptr", "strs", "rint", "rstr", "rbool"}
+(*   "struct" = OutS, "ptr" = *OutS, "strs" = []string, "rint" = int, "pint" = *int (pointer to a  *)
+(*   non-object type: schema of int, nil stands for 0), "rstr" = string, "rbool" = bool            *)
+GoOutKinds == {"struct", "ptr", "strs", "rint", "pint", "rstr", "rbool"}
+PtrKinds == {"ptr", "pint"}
 GoOutSchema(k) ==
   CASE k \in {"struct", "ptr"} ->
          [Typed({"object"}) EXCEPT
             !.props = [n |-> IntS, mode |-> StrS, tags |-> [Typed({"null", "array"}) EXCEPT !.items = <<StrS>>]],
             !.req = {"n", "mode", "tags"}, !.addl = FALSE]
     [] k = "strs"  -> [Typed({"null", "array"}) EXCEPT !.items = <<StrS>>]
-    [] k = "rint"  -> IntS
+    [] k \in {"rint", "pint"} -> IntS
     [] k = "rstr"  -> StrS
     [] k = "rbool" -> BoolS
 
@@ -377,8 +392,9 @@ AnyVals == ObjVals \cup IntArrVals \cup {JArr(<<JStr("x")>>)} \cup IntVals \cup 
 
 (* Output case: sid = explicit schema id or "reflect"; okind = the Go Out type;*)
 (* out = the JSON of the handler's output; nilform = the handler returns Go's *)
-(* nil for it (nil map for {}, nil *OutS for the zero OutS, nil slice / nil   *)
-(* any for null); content = the handler supplies Content of its own.          *)
+(* nil for it (nil map for {}, nil *OutS for the zero OutS, nil *int for 0,    *)
+(* nil slice / nil any for null); content = the handler supplies Content of   *)
+(* its own; cache = the SchemaCache arrangement (OutCaches).                  *)
 OutCase(sid, okind, cache, out, nilform, content) ==
   [kind |-> "out", sid |-> sid, okind |-> okind, cache |-> cache, out |-> out, nilform |-> nilform, content |-> content]
 CaseOutSchema(c) == IF c.sid = "reflect" THEN GoOutSchema(c.okind) ELSE OutSchema(c.sid)
@@ -396,7 +412,18 @@ StructuredEqualsOutput(c, o) == Success(o) => SameJ(Sc(o), OutJson(c))
 OutputValid(c, o)            == Success(o) => Valid(CaseOutSchema(c), Sc(o))
 TextFallback(c, o)           == (Success(o) /\ ~c.content) => \E i \in DOMAIN o.texts : SameJ(o.texts[i], Sc(o))
 BadOutputIsError(c, o)       == ~OutOk(c) => ~Success(o)
+(* The other half of "output that violates the output schema is reported as   *)
+(* an error RATHER THAN RETURNED": the handlers of the family never return an *)
+(* error themselves, so an output that (with schema defaults) is valid under  *)
+(* the declared output schema is returned - as a successful result, which the *)
+(* clauses above then pin down completely.  (The input side has the same      *)
+(* two-sided form: InvokedIffValid.)  In particular the outcome of a call is  *)
+(* a function of (Out type / schema, handler output) alone: it cannot depend  *)
+(* on whether the tool's schema was reflected or taken from a SchemaCache, nor*)
+(* on which registration filled the cache.                                    *)
+ValidOutputReturned(c, o)    == OutOk(c) => Success(o)
 HoldsOut(c, o) == o.ran /\ StructuredEqualsOutput(c, o) /\ OutputValid(c, o) /\ TextFallback(c, o) /\ BadOutputIsError(c, o)
+                  /\ ValidOutputReturned(c, o)
 
 (* Code-shaped: mcp/server.go toolForErr, after the handler returned.         *)
 BadText == <<"bad", 0>>
@@ -406,7 +433,7 @@ ExpectedOut(c) ==
   IF c.okind = "any" /\ c.out[1] = "null"
   THEN \* `if outval != nil` : nothing is marshalled, validated or attached
        [ran |-> TRUE, isError |-> FALSE, proto |-> FALSE, hasSc |-> FALSE, sc |-> JNull, texts |-> Own(c)]
-  ELSE LET raw == IF c.nilform /\ c.okind = "map" THEN JNull ELSE c.out   \* nil *OutS is replaced by elemZero
+  ELSE LET raw == IF c.nilform /\ c.okind = "map" THEN JNull ELSE c.out   \* nil *OutS / nil *int is replaced by elemZero (however the schema was found)
            co  == IF raw[1] = "null" /\ s.types = {"object"} THEN EmptyObj ELSE raw
            d   == CodeApplyDefaults(s, co)
        IN IF CodeValidate(s, d) # "ok"
